@@ -306,4 +306,310 @@ private theorem step_next (f : BF Chan) (hg : Good f) : StepLaw f .next (step ch
     subst h1 h2
     exact unchanged hg hk
 
+private theorem step_readlines (f : BF Chan) (hint : Option Int) (hg : Good f) :
+    StepLaw f (.readlines hint) (step chanOps f (.readlines hint)) := by
+  simp only [step, readlines]
+  rcases usable f f.rd (Or.inl rfl) with ⟨hc, hr⟩ | hx
+  · obtain ⟨new, g1, g2, g3, g4, g5, _⟩ := readlinesLoop_chan hint
+      (f.rbuf.length + chanOps.bound f.s f.realpos + 1) f [] 0 hg.1.2 hc hr (by simp [pending])
+    rcases hres : readlinesLoop chanOps hint (f.rbuf.length + chanOps.bound f.s f.realpos + 1) f [] 0 with ⟨f1, r1⟩
+    rw [hres] at g1 g2 g3 g4 g5
+    simp only at g1 g2 g3 g4 g5
+    subst g1
+    exact readlike hg g3 g4 g5 trivial (by simpa [outOf, Out.got] using g2.flatten_append) rfl
+  · -- the first `readline` raises; nothing has changed
+    obtain ⟨h1, e, h2⟩ := readline_err_chan f none hx
+    have hk := err_kind_readline f none e h2 hx
+    have : readlinesLoop chanOps hint (f.rbuf.length + chanOps.bound f.s f.realpos + 1) f [] 0 = (f, .error e) := by
+      rw [readlinesLoop]
+      rcases hres : readline chanOps f none with ⟨f1, r1⟩
+      rw [hres] at h1 h2
+      simp only at h1 h2
+      subst h1 h2
+      rfl
+    rw [this]
+    exact unchanged hg hk
+
+private theorem step_iter (f : BF Chan) (hg : Good f) : StepLaw f .iter (step chanOps f .iter) := by
+  simp only [step, iterAll]
+  by_cases hc : f.closed = true
+  · rw [if_pos hc]; exact unchanged hg trivial
+  · have hc' : f.closed = false := by simpa using hc
+    rw [if_neg hc]
+    by_cases hr : f.rd = true
+    · obtain ⟨new, g1, g2, g3, g4, g5, g6⟩ := iterLoop_chan
+        (f.rbuf.length + chanOps.bound f.s f.realpos + 1) f [] hg.1.2 hc' hr (by simp [pending])
+      rcases hres : iterLoop chanOps (f.rbuf.length + chanOps.bound f.s f.realpos + 1) f [] with ⟨f1, r1⟩
+      rw [hres] at g1 g3 g4 g5 g6
+      simp only at g1 g3 g4 g5 g6
+      subst g1
+      refine readlike hg g4 g5 g6 trivial ?_ rfl
+      have := g2.flatten_append
+      simp only [outOf, Out.got, g3, List.nil_append]
+      simpa using this
+    · have hx : f.closed = true ∨ f.rd = false := Or.inr (by simpa using hr)
+      obtain ⟨h1, e, h2⟩ := next_err_chan f hx
+      obtain ⟨_, e', h3⟩ := readline_err_chan f none hx
+      have hk' := err_kind_readline f none e' h3 hx
+      have : iterLoop chanOps (f.rbuf.length + chanOps.bound f.s f.realpos + 1) f [] = (f, .error e') := by
+        rw [iterLoop]
+        unfold next
+        rcases hres : readline chanOps f none with ⟨f1, r1⟩
+        have h1' := (readline_err_chan f none hx).1
+        rw [hres] at h1' h3
+        simp only at h1' h3
+        subst h1' h3
+        rfl
+      rw [this]
+      exact unchanged hg hk'
+
+private theorem step_write (f : BF Chan) (d : Bytes) (hg : Good f) :
+    StepLaw f (.write d) (step chanOps f (.write d)) := by
+  simp only [step]
+  rcases usable f f.wr (Or.inr rfl) with ⟨hc, hw⟩ | hx
+  · obtain ⟨h1, h2, h3, h4, h5, h6⟩ := write_chan f d hg.1.2 hc hw hg.2
+    rcases hres : write chanOps f d with ⟨f1, r1⟩
+    rw [hres] at h1 h2 h3 h4 h5 h6
+    simp only at h1 h2 h3 h4 h5 h6
+    subst h1
+    exact ⟨⟨wf_of_cfg h4 hg.1, h6⟩, h4, trivial, by simpa [outOf, Out.got] using pending_of_rside h3,
+      by simpa [outOf, sentBy] using h2, fun h => by show f1.closed = true; rw [h5]; exact h⟩
+  · obtain ⟨h1, e, h2⟩ := write_err_chan f d hx
+    have hk := err_kind_write f d e h2 hx
+    rcases hres : write chanOps f d with ⟨f1, r1⟩
+    rw [hres] at h1 h2
+    simp only at h1 h2
+    subst h1 h2
+    exact unchanged hg hk
+
+private theorem writelines_law (f : BF Chan) (ds : List Bytes) (hg : Good f) :
+    Good (writelines chanOps f ds).1 ∧ cfg (writelines chanOps f ds).1 = cfg f ∧
+    pending (writelines chanOps f ds).1 = pending f ∧
+    (f.closed = true → (writelines chanOps f ds).1.closed = true) ∧
+    (((writelines chanOps f ds).2 = .ok () ∧
+        (writelines chanOps f ds).1.s.out ++ (writelines chanOps f ds).1.wbuf = f.s.out ++ f.wbuf ++ ds.flatten) ∨
+     (∃ e, (writelines chanOps f ds).2 = .error e ∧ Benign (.err e) ∧
+        (writelines chanOps f ds).1.s.out ++ (writelines chanOps f ds).1.wbuf = f.s.out ++ f.wbuf)) := by
+  induction ds generalizing f with
+  | nil => exact ⟨hg, rfl, rfl, fun h => h, Or.inl ⟨rfl, by simp [writelines]⟩⟩
+  | cons d ds ih =>
+    rw [writelines]
+    rcases usable f f.wr (Or.inr rfl) with ⟨hc, hw⟩ | hx
+    · obtain ⟨h1, h2, h3, h4, h5, h6⟩ := write_chan f d hg.1.2 hc hw hg.2
+      rcases hres : write chanOps f d with ⟨f1, r1⟩
+      rw [hres] at h1 h2 h3 h4 h5 h6
+      simp only at h1 h2 h3 h4 h5 h6
+      subst h1
+      simp only
+      obtain ⟨i1, i2, i3, i4, i5⟩ := ih f1 ⟨wf_of_cfg h4 hg.1, h6⟩
+      refine ⟨i1, by rw [i2, h4], by rw [i3, pending_of_rside h3], fun h => i4 (by rw [h5]; exact h), ?_⟩
+      rcases i5 with ⟨j1, j2⟩ | ⟨e, j1, j2, j3⟩
+      · exact Or.inl ⟨j1, by rw [j2, h2]; simp⟩
+      · -- a later element failed although this one was accepted: impossible here (flags do not change)
+        exfalso
+        have hc1 : f1.closed = false := by rw [h5]; exact hc
+        have hw1 : f1.wr = true := by
+          have : f1.wr = f.wr := by simp [cfg] at h4; exact h4.2.1
+          rw [this]; exact hw
+        clear j3 j2
+        -- every write on an open writable file succeeds, so writelines succeeds
+        have key : ∀ (g : BF Chan) (es : List Bytes), Good g → g.closed = false → g.wr = true →
+            (writelines chanOps g es).2 = .ok () := by
+          intro g es
+          induction es generalizing g with
+          | nil => intros; rfl
+          | cons x xs ihx =>
+            intro gg gc gw
+            rw [writelines]
+            obtain ⟨k1, _, _, k4, k5, k6⟩ := write_chan g x gg.1.2 gc gw gg.2
+            rcases hr2 : write chanOps g x with ⟨g1, q1⟩
+            rw [hr2] at k1 k4 k5 k6
+            simp only at k1 k4 k5 k6
+            subst k1
+            simp only
+            refine ihx g1 ⟨wf_of_cfg k4 gg.1, k6⟩ (by rw [k5]; exact gc) ?_
+            have : g1.wr = g.wr := by simp [cfg] at k4; exact k4.2.1
+            rw [this]; exact gw
+        rw [key f1 ds ⟨wf_of_cfg h4 hg.1, h6⟩ hc1 hw1] at j1
+        cases j1
+    · obtain ⟨h1, e, h2⟩ := write_err_chan f d hx
+      have hk := err_kind_write f d e h2 hx
+      rcases hres : write chanOps f d with ⟨f1, r1⟩
+      rw [hres] at h1 h2
+      simp only at h1 h2
+      subst h1 h2
+      exact ⟨hg, rfl, rfl, fun h => h, Or.inr ⟨e, rfl, hk, rfl⟩⟩
+
+private theorem step_writelines (f : BF Chan) (ds : List Bytes) (hg : Good f) :
+    StepLaw f (.writelines ds) (step chanOps f (.writelines ds)) := by
+  simp only [step]
+  obtain ⟨i1, i2, i3, i4, i5⟩ := writelines_law f ds hg
+  rcases hres : writelines chanOps f ds with ⟨f1, r1⟩
+  rw [hres] at i1 i2 i3 i4 i5
+  simp only at i1 i2 i3 i4 i5
+  rcases i5 with ⟨j1, j2⟩ | ⟨e, j1, j2, j3⟩
+  · subst j1
+    exact ⟨i1, i2, trivial, by simpa [outOf, Out.got] using i3, by simpa [outOf, sentBy] using j2, i4⟩
+  · subst j1
+    exact ⟨i1, i2, j2, by simpa [outOf, Out.got] using i3, by simpa [outOf, sentBy] using j3, i4⟩
+
+private theorem good_flushed {f f1 : BF Chan} (hg : Good f) (h5 : cfg f1 = cfg f) (h3 : f1.wbuf = []) : Good f1 := by
+  have hw := wf_of_cfg h5 hg.1
+  exact ⟨hw, fun _ => h3, fun _ _ => by rw [h3]; rfl, fun _ _ => by rw [h3]; exact hw.2⟩
+
+private theorem step_flush (f : BF Chan) (hg : Good f) : StepLaw f .flush (step chanOps f .flush) := by
+  simp only [step]
+  obtain ⟨h1, h2, h3, h4, h5, h6⟩ := flush_chan f
+  rcases hres : flush chanOps f with ⟨f1, r1⟩
+  rw [hres] at h1 h2 h3 h4 h5 h6
+  simp only at h1 h2 h3 h4 h5 h6
+  subst h1
+  exact ⟨good_flushed hg h5 h3, h5, trivial, by simpa [outOf, Out.got] using pending_of_rside h4,
+    by simp [outOf, sentBy, h2, h3], fun h => by show f1.closed = true; rw [h6]; exact h⟩
+
+private theorem step_close (f : BF Chan) (hg : Good f) : StepLaw f .close (step chanOps f .close) := by
+  simp only [step]
+  obtain ⟨h1, h2, h3, h4, h5, h6⟩ := close_chan f
+  rcases hres : close chanOps f with ⟨f1, r1⟩
+  rw [hres] at h1 h2 h3 h4 h5 h6
+  simp only at h1 h2 h3 h4 h5 h6
+  subst h1
+  exact ⟨good_flushed hg h5 h3, h5, trivial, by simpa [outOf, Out.got] using pending_of_rside h4,
+    by simp [outOf, sentBy, h2, h3], fun _ => h6⟩
+
+/-- Every single call keeps the invariant, hands the caller a prefix of what was pending, and moves
+    exactly the bytes of a successful write towards the stream. -/
+theorem step_law (f : BF Chan) (op : Op) (hg : Good f) : StepLaw f op (step chanOps f op) := by
+  cases op with
+  | read n => exact step_read f n hg
+  | readline n => exact step_readline f n hg
+  | readlines h => exact step_readlines f h hg
+  | next => exact step_next f hg
+  | iter => exact step_iter f hg
+  | write d => exact step_write f d hg
+  | writelines ds => exact step_writelines f ds hg
+  | flush => exact step_flush f hg
+  | close => exact step_close f hg
+  | tell => exact ⟨hg, rfl, trivial, by simp [step, Out.got], by simp [step, sentBy], fun h => h⟩
+
+/-- all bytes handed to the caller by a run, in call order -/
+def gotAll (outs : List Out) : Bytes := (outs.map Out.got).flatten
+/-- all bytes accepted from the caller by a run, in call order -/
+def sentAll : List Op → List Out → Bytes
+  | op :: ops, o :: os => sentBy op o ++ sentAll ops os
+  | _, _ => []
+
+/-- **Stream preservation, for every program, every chunking of reads and of writes, every mode and
+    buffer size.**  After any sequence of calls: what the caller received, followed by what is still
+    pending, is exactly the byte stream (nothing lost, duplicated or reordered); what the stream has
+    accepted, followed by the write buffer, is exactly what was written, in order; the buffering
+    invariant holds (unbuffered: nothing held back; line buffered: nothing up to the last LF held
+    back; sized: less than `bufsize` held back); and no call failed for any reason other than
+    "closed" / "not open for reading" / "not open for writing". -/
+theorem stream_preserved (f : BF Chan) (prog : List Op) (hg : Good f) :
+    gotAll (run chanOps f prog).2 ++ pending (run chanOps f prog).1 = pending f ∧
+    (run chanOps f prog).1.s.out ++ (run chanOps f prog).1.wbuf
+      = f.s.out ++ f.wbuf ++ sentAll prog (run chanOps f prog).2 ∧
+    Good (run chanOps f prog).1 ∧
+    (∀ o ∈ (run chanOps f prog).2, Benign o) := by
+  induction prog generalizing f with
+  | nil => simp [run, gotAll, sentAll, hg]
+  | cons op ops ih =>
+    obtain ⟨s1, _, s3, s4, s5, _⟩ := step_law f op hg
+    obtain ⟨i1, i2, i3, i4⟩ := ih (step chanOps f op).1 s1
+    simp only [run]
+    refine ⟨?_, ?_, i3, ?_⟩
+    · simp only [gotAll, List.map_cons, List.flatten_cons, List.append_assoc] at i1 ⊢
+      rw [i1, s4]
+    · rw [i2, s5]; simp [sentAll, List.append_assoc]
+    · intro o ho
+      rcases List.mem_cons.1 ho with h | h
+      · subst h; exact s3
+      · exact i4 o h
+
+/-- Reading to the end returns the whole stream: a program whose last call is `read()` has received,
+    in order, every byte the stream held. -/
+theorem read_to_eof_complete (f : BF Chan) (prog : List Op) (hg : Good f)
+    (hopen : (run chanOps f prog).1.closed = false) (hr : f.rd = true) :
+    gotAll (run chanOps f (prog ++ [.read none])).2 = pending f := by
+  have hrun : ∀ (g : BF Chan) (p q : List Op),
+      run chanOps g (p ++ q) = ((run chanOps (run chanOps g p).1 q).1, (run chanOps g p).2 ++ (run chanOps (run chanOps g p).1 q).2) := by
+    intro g p q
+    induction p generalizing g with
+    | nil => simp [run]
+    | cons a p ih => simp [run, ih]
+  have hcfg : ∀ (g : BF Chan) (p : List Op), Good g → cfg (run chanOps g p).1 = cfg g := by
+    intro g p
+    induction p generalizing g with
+    | nil => intro _; rfl
+    | cons a p ih =>
+      intro gg
+      obtain ⟨s1, s2, _⟩ := step_law g a gg
+      simp only [run]
+      rw [ih _ s1, s2]
+  obtain ⟨p1, _, p3, _⟩ := stream_preserved f prog hg
+  rw [hrun]
+  have hr' : (run chanOps f prog).1.rd = true := by
+    have := hcfg f prog hg
+    simp [cfg] at this
+    rw [this.1]; exact hr
+  obtain ⟨r1, r2, _⟩ := read_none_chan (run chanOps f prog).1 p3.1.1 hopen hr'
+  simp only [run, step, gotAll, List.map_append, List.flatten_append, List.map_cons, List.map_nil,
+    List.flatten_cons, List.flatten_nil, List.append_nil]
+  rcases hres : BufFile.read chanOps (run chanOps f prog).1 none with ⟨f1, q1⟩
+  rw [hres] at r1
+  simp only at r1
+  subst r1
+  simp only [outOf, Out.got]
+  exact p1
+
+/-- Written data reaches the stream complete and in order by `flush` (and by `close`). -/
+theorem flush_complete (f : BF Chan) (prog : List Op) (hg : Good f) (h0 : f.s.out = [] ∧ f.wbuf = []) :
+    (step chanOps (run chanOps f prog).1 .flush).1.s.out = sentAll prog (run chanOps f prog).2 ∧
+    (step chanOps (run chanOps f prog).1 .close).1.s.out = sentAll prog (run chanOps f prog).2 := by
+  obtain ⟨_, p2, _, _⟩ := stream_preserved f prog hg
+  rw [h0.1, h0.2] at p2
+  simp only [List.nil_append] at p2
+  constructor
+  · simp only [step]
+    obtain ⟨h1, h2, _⟩ := flush_chan (run chanOps f prog).1
+    rcases hres : flush chanOps (run chanOps f prog).1 with ⟨f1, r1⟩
+    rw [hres] at h1 h2
+    simp only at h1 h2
+    subst h1
+    simp only [outOf]; rw [h2, p2]
+  · simp only [step]
+    obtain ⟨h1, h2, _⟩ := close_chan (run chanOps f prog).1
+    rcases hres : close chanOps (run chanOps f prog).1 with ⟨f1, r1⟩
+    rw [hres] at h1 h2
+    simp only at h1 h2
+    subst h1
+    simp only [outOf]; rw [h2, p2]
+
+/-- Line buffering: after every call of every program the stream has received everything written
+    through the last newline (the bytes still buffered contain no LF); unbuffered: everything. -/
+theorem line_buffered_pushes_each_newline (f : BF Chan) (prog : List Op) (hg : Good f) :
+    ((run chanOps f prog).1.buffered = true → (run chanOps f prog).1.lineBuf = true →
+        (run chanOps f prog).1.wbuf.contains LF = false) ∧
+    ((run chanOps f prog).1.buffered = false → (run chanOps f prog).1.wbuf = []) := by
+  obtain ⟨_, _, p3, _⟩ := stream_preserved f prog hg
+  exact ⟨p3.2.2.1, p3.2.1⟩
+
+/-! ## non-vacuity: concrete non-trivial runs (short reads of 1–3 bytes, short writes of 1–2 bytes) -/
+
+def demoFile (mode : String) (bufsize : Int) : BF Chan :=
+  setMode { s := { inp := "ab\ncd\nef".toUTF8.toList, rg := [0, 2, 0, 1], wg := [0, 1, 0] } } mode.toList bufsize 0
+
+example : Good (demoFile "r+b" 1) := (setMode_good _ _ _ _ (by decide) rfl).1
+
+example :
+    ((run chanOps (demoFile "rb" 0) [.readline none, .read (some 1), .readline (some 1), .next, .read none]).2.map Out.got)
+      = ["ab\n".toUTF8.toList, "c".toUTF8.toList, "d".toUTF8.toList, "\n".toUTF8.toList, "ef".toUTF8.toList] := by
+  decide +kernel
+
+example :
+    let r := run chanOps (demoFile "wb" 1) [.write "xy\nz".toUTF8.toList]
+    r.1.s.out = "xy\n".toUTF8.toList ∧ r.1.wbuf = "z".toUTF8.toList := by
+  decide +kernel
+
 end PV.Props.C42
